@@ -138,7 +138,35 @@ def main():
     for w, o in enumerate(outs):
         for j, r in enumerate(o):
             res[w + j * nw] = r
+    # model: the parameter list of the synthesised def (param_fn: output=False; full_fn: an extra keyword-only ret<k>)
+    KIND = {"po": "PO", "pk": "PK", "vp": "VP", "ko": "KO", "vk": "VK"}
+    def sig_coq(ps):
+        return vf.coqlist(ps, lambda p: "(mkparam %s %s %s)" % (vf.coqstr(p[0]), KIND[p[1]], vf.coqbool(bool(p[2]))))
+    mheaders = vf.coq_eval_strings(["model.Sig"], "fun ps => show_pieces (pieces_of_sig ps)", [sig_coq(c["params"]) for c in cases], shard=800)
     ncalls, nontriv, samples = 0, set(), []
+    ident_ok = lambda n: n.isidentifier() and n not in ("lambda",)
+    gterms = ["(%s, %s, %d)" % (vf.coqstr(c["fname"] if c["callable"] != "lambda" else "<lambda>"), vf.coqlist([p[0] for p in c["params"]], vf.coqstr), len(c["params"])) for c in cases]
+    gdefs = ("Definition run_gen (c : string * list string * nat) : string :=\n  let '(f, ps, n) := c in\n"
+             "  let nm := def_name (negb (String.eqb f \"<lambda>\")) f ps in\n"
+             "  (nm ++ \"|\" ++ sep_concat \",\" (map (fun p => fst p ++ \"/\" ++ snd p) (gen_names [nm] ps n)))%string.")
+    mgen = vf.coq_eval_strings(["model.Synth"], "run_gen", gterms, shard=800, defs=gdefs)
+    for (c, r), mg in zip(zip(cases, res), mgen):
+        if not r.get("header_names"):
+            continue
+        mname, mpairs = mg.split("|")
+        mpairs = [x.split("/") for x in mpairs.split(",")] if mpairs else []
+        # param_fn is the header whose parameters are exactly the callable's
+        cand = [hn for hn in r["header_names"] if [x[0] for x in hn[1]] == [p[0] for p in c["params"]]]
+        if not cand:
+            continue
+        dn, triples = cand[-1]
+        got = [[t[1], t[2]] for t in triples]
+        want = [[a, d if p[2] else None] for (a, d), p in zip(mpairs, c["params"])]
+        if got != want or dn != mname:
+            R.violation("correspondence", "generated names differ from the model: implementation def %s %s, model def %s %s (%s)" % (dn, got, mname, want, c["params"]), {"case": c, "impl": [dn, got], "model": [mname, want]}, key={"kind": "gensym"}, no_input=True)
+    for (c, r), mh in zip(zip(cases, res), mheaders):
+        if r.get("headers") and not any(h == mh for h in r["headers"]):
+            R.violation("correspondence", "synthesised parameter list differs from the model: implementation %s, model %s" % (r["headers"], mh), {"case": c, "impl": r["headers"], "model": mh}, key={"kind": "pieces"}, no_input=True)
     for c, r in zip(cases, res):
         desc = "%s %s(%s) [%s, %s, %s]" % (c["callable"], c["fname"], ", ".join("%s:%s%s%s" % (p[0], p[1], "=d" if p[2] else "", ":" + p[3] if p[3] != "none" else "") for p in c["params"]), c["descriptor"], c["checker"], "-> A" if c["ret_annot"] else "no return annotation")
         keyb = {"callable": c["callable"], "descriptor": c["descriptor"]}
